@@ -230,6 +230,33 @@ def run_parallel(fns, jobs=None):
 # a check run
 
 
+def replay(rec):
+    """Re-validate the recorded history of a violation against the trace specification (check.py <ID> --replay <file>)."""
+    area, module = rec.get("area"), rec.get("module")
+    hist = rec.get("history")
+    if not area or not module or not hist:
+        print("replay file has no history / specification reference; verdict was:", json.dumps(rec.get("verdict"))[:2000])
+        return 0
+    d = scratch_dir("replay-%d" % os.getpid())
+    path = os.path.join(d, "history.ndjson")
+    with open(path, "w") as f:
+        if '"Reset"' not in json.dumps(hist[0]):
+            f.write('{"e":"Reset"}\n')
+        for e in hist:
+            f.write(json.dumps(e, separators=(",", ":")) + "\n")
+    res = tlc(os.path.join(VERIF, "spec", area), module, module + ".cfg", env={"TRACE": path}, workers=1, timeout=1800, xmx="6g",
+              meta=os.path.join(d, "meta"))
+    bads = parse_bad(res["out"])
+    shutil.rmtree(d, ignore_errors=True)
+    for b in bads:
+        print("REJECTED line %s: %s" % (b.get("l"), b.get("why")))
+    if bads:
+        print("VIOLATION property=%s replay=%s" % (rec.get("property"), "(replayed)"))
+        return 1
+    print("history accepted by the specification (%d events)" % len(hist))
+    return 0
+
+
 def abbreviate(v, keep=24):
     """Shorten long arrays inside an event so that it can be shown as a sample."""
     if isinstance(v, list):
@@ -259,7 +286,7 @@ class Check:
         self.extra = {}
         self.exhaustive = False
         self.rule = ""
-        self.scratch = scratch_dir(pid)
+        self.scratch = scratch_dir("%s-%d" % (pid, os.getpid()))
         kf = json.load(open(os.path.join(VERIF, "known_findings.json")))
         self.kf = [f for f in kf.get("findings", []) if f["property"] == pid]
         self.kf_seen = set()
@@ -348,6 +375,7 @@ class Check:
             lines = None
             for b in parse_bad(res["out"]):
                 b["file"] = path
+                b["area"], b["module"] = area, module
                 if "l" in b:
                     if lines is None:
                         lines = open(path).read().splitlines()
@@ -382,7 +410,7 @@ class Check:
         for b in self.violations[:limit]:
             n += 1
             path = os.path.join(rdir, "%s-%d.json" % (self.pid, n))
-            rec = dict(property=self.pid, tier=self.tier, seed=SEED, verdict=b, repo=REPO)
+            rec = dict(property=self.pid, tier=self.tier, seed=SEED, verdict=b, repo=REPO, area=b.get("area"), module=b.get("module"))
             # keep the history that led to the event (since the last Reset) for stateful traces
             try:
                 if "file" in b and "l" in b:
